@@ -116,6 +116,40 @@ ZeroCases ==
   \cup {Case("asg-absorb" \o op, <<Set("c", MutE(WInt, I(0)))>>, Asg(op, Tick(1, WMut(WInt), V("c")), T(2, 3)), WInt, <<1, 2>>)
           : op \in {"*=", "&=", "<<=", "**="}}
 
+\* consumers applied DIRECTLY to the iterator of an array literal whose elements have effects: every element is
+\* evaluated, once, in order, when the literal is (a deciding element excuses pulls, not the evaluation of the literal)
+Bools3 == {<<a, b, c>> : a \in BOOLEAN, b \in BOOLEAN, c \in BOOLEAN}
+BArr(t) == ArrE(<<TB(1, t[1]), TB(2, t[2]), TB(3, t[3])>>)
+BStr(t) == ToString(t[1]) \o ToString(t[2]) \o ToString(t[3])
+IArr(x, y, z) == ArrE(<<T(1, x), T(2, y), T(3, z)>>)
+LitIterCases ==
+  {Case("litarr-and-" \o BStr(t), <<>>, RedE("$&&", "bool", IterE(BArr(t))), WBool, <<1, 2, 3>>) : t \in Bools3}
+  \cup {Case("litarr-or-" \o BStr(t), <<>>, RedE("$||", "bool", IterE(BArr(t))), WBool, <<1, 2, 3>>) : t \in Bools3}
+  \cup {Case("litarr-and-mixed-" \o BStr(t), <<>>, RedE("$&&", "bool", IterE(ArrE(<<B(t[1]), TB(1, t[2]), B(t[3]), TB(2, TRUE)>>))), WBool, <<1, 2>>) : t \in Bools3}
+  \cup {Case("litarr-or-mixed-" \o BStr(t), <<>>, RedE("$||", "bool", IterE(ArrE(<<B(t[1]), TB(1, t[2]), B(t[3]), TB(2, FALSE)>>))), WBool, <<1, 2>>) : t \in Bools3}
+  \cup {Case("litarr" \o op \o "-" \o ToString(x), <<>>, RedE(op, "int", IterE(IArr(x, 0, 7))), WInt, <<1, 2, 3>>)
+          : op \in {"$+", "$*", "$&", "$|"}, x \in {0, 1, -1, 6}}
+  \cup {Case("litarr-collect", <<>>, CollectE(IterE(IArr(4, 5, 6))), WArr(WInt), <<1, 2, 3>>),
+        Case("litarr-map", <<>>, CollectE(MapE(IterE(IArr(4, 5, 6)), Dbl)), WArr(WInt), <<1, 2, 3>>),
+        Case("litarr-filter", <<>>, CollectE(FilterE(IterE(IArr(0, 5, 1)), IsBig)), WArr(WInt), <<1, 2, 3>>),
+        Case("litarr-partition", <<>>, PartE(IterE(IArr(0, 5, 1)), IsBig), WTup(<<WArr(WInt), WArr(WInt)>>), <<1, 2, 3>>),
+        Case("litarr-reduce", <<>>, ReduceE(IterE(IArr(4, 5, 6)), T(4, 10), Add2), WInt, <<1, 2, 3, 4>>),
+        Case("litarr-tfilter", <<>>, CollectE(TFilterE(IterE(IArr(4, 5, 6)), WInt)), WArr(WInt), <<1, 2, 3>>),
+        Case("litarr-first-pull", <<>>, TupAt(CallE(IterE(IArr(4, 5, 6)), <<>>), 1), WInt, <<1, 2, 3>>)}
+
+\* [value; length]: the value expression is evaluated once, then the length, whatever the value's type and the length
+MkCell == FnDecl("mk", <<P("v", WInt)>>, WMut(WInt), <<Ret(MutE(WInt, V("v")))>>)
+RepVals == {
+  [n |-> "cell", pre |-> <<>>, e |-> MutE(WInt, T(1, 5)), ty |-> WMut(WInt)],
+  [n |-> "cellcall", pre |-> <<MkCell>>, e |-> CallE(V("mk"), <<T(1, 5)>>), ty |-> WMut(WInt)],
+  [n |-> "arr", pre |-> <<>>, e |-> ArrE(<<T(1, 5)>>), ty |-> WArr(WInt)],
+  [n |-> "tupcell", pre |-> <<>>, e |-> TupE(<<T(1, 5), MutE(WInt, I(0))>>), ty |-> WTup(<<WInt, WMut(WInt)>>)],
+  [n |-> "celloftuple", pre |-> <<>>, e |-> MutE(WTup(<<WInt, WInt>>), TupE(<<T(1, 5), I(6)>>)), ty |-> WMut(WTup(<<WInt, WInt>>))],
+  [n |-> "str", pre |-> <<>>, e |-> TS(1, <<97>>), ty |-> WStr]}
+RepCases ==
+  {Case("repeat-" \o v.n \o "-t" \o ToString(n), v.pre, RepE(v.e, T(2, n)), WArr(v.ty), <<1, 2>>) : v \in RepVals, n \in {0, 1, 2, 3}}
+  \cup {Case("repeat-" \o v.n \o "-l" \o ToString(n), v.pre, RepE(v.e, I(n)), WArr(v.ty), <<1>>) : v \in RepVals, n \in {0, 1, 2, 3}}
+
 CtlCase(name, pre, stm, rty, must) == [name |-> name, pre |-> pre, stm |-> stm, rty |-> rty, must |-> must]
 \* a guard inside a closure over captured values: the branch the guard excludes is not evaluated — also not when the
 \* closure is made (its operation would fail on the guarded value)
@@ -152,7 +186,7 @@ CtlProg(c, ctx) ==
 Contexts == {"top", "fn"}
 AllCases ==
   {[id |-> c.name \o "/" \o ctx, suite |-> "c07", prog |-> ExprProg(c, ctx), must |-> c.must]
-      : c \in BinCases \cup LogicCases \cup DataCases \cup AsgCases \cup ZeroCases, ctx \in Contexts}
+      : c \in BinCases \cup LogicCases \cup DataCases \cup AsgCases \cup ZeroCases \cup LitIterCases \cup RepCases, ctx \in Contexts}
   \cup {[id |-> c.name \o "/" \o ctx, suite |-> "c07", prog |-> CtlProg(c, ctx), must |-> c.must]
       : c \in CtlCases, ctx \in Contexts}
 
